@@ -169,6 +169,10 @@ enum Mutation {
     Splice(u16),
     Random(Vec<u8>),
     InvalidUtf8(u16),
+    /// a run of `n` continuation bytes (+ a final byte) inserted `off` bytes into the first packet's body, the remaining
+    /// length adjusted so that the framing stays consistent: an over-long variable byte integer wherever the decoder
+    /// expects one inside the body (property length, subscription identifier)
+    BodyVliRun(u8, u8),
 }
 
 fn mutation() -> BoxedStrategy<Mutation> {
@@ -185,6 +189,7 @@ fn mutation() -> BoxedStrategy<Mutation> {
         1 => any::<u16>().prop_map(Mutation::Splice),
         2 => vec(any::<u8>(), 1..40).prop_map(Mutation::Random),
         1 => any::<u16>().prop_map(Mutation::InvalidUtf8),
+        2 => (0u8..8, prop_oneof![Just(3u8), Just(4u8), Just(5u8), Just(6u8), Just(9u8), Just(12u8)]).prop_map(|(off, n)| Mutation::BodyVliRun(off, n)),
     ]
     .boxed()
 }
@@ -278,6 +283,18 @@ fn apply_mutation(stream: &mut Vec<u8>, m: &Mutation) -> &'static str {
                 stream[i] = 0xC0;
             }
             "invalid_utf8_byte"
+        }
+        Mutation::BodyVliRun(off, n) => {
+            // only for a first packet with a one-byte remaining length that stays one byte
+            if stream.len() >= 2 && (stream[1] as usize) + (*n as usize) + 1 < 0x80 && stream.len() >= 2 + stream[1] as usize {
+                let body_len = stream[1] as usize;
+                let at = 2 + (*off as usize).min(body_len);
+                let mut run: Vec<u8> = (0..*n).map(|i| 0x80 | (i.wrapping_mul(37).wrapping_add(1) & 0x7f)).collect();
+                run.push(0x01);
+                stream[1] += *n + 1;
+                stream.splice(at..at, run);
+            }
+            "overlong_vli_in_body"
         }
     }
 }
